@@ -185,7 +185,7 @@ func dedupDeps(ds []Dep) []Dep {
 
 func (cachehist) Gen(r *Rng, cfg GenConfig) any {
 	maxTasks := 3
-	if cfg.Prop == "C09" {
+	if cfg.Prop == "C09" || (cfg.Tier == "thorough" && r.Chance(1, 3)) {
 		maxTasks = 4
 	}
 	c := &CHCase{Prog: genProgram(r, maxTasks), Disk: map[string]string{}, Sched: genSched(r)}
@@ -215,6 +215,29 @@ func (cachehist) Gen(r *Rng, cfg GenConfig) any {
 		}
 	}
 	c.FixedMtime = r.Chance(1, 4)
+	c.Prog.Seq = r.Chance(1, 4)
+	if len(c.Prog.Tasks) >= 2 && r.Chance(1, 10) {
+		// two tasks whose names differ only in letter case, with the same dependencies: distinct tasks
+		src, dst := &c.Prog.Tasks[0], &c.Prog.Tasks[len(c.Prog.Tasks)-1]
+		if len(dst.Writes) == 0 && len(src.Writes) == 0 && dst.Name != "clean" {
+			old := dst.Name
+			dst.Name = strings.ToLower(src.Name)
+			var ds []Dep
+			for _, d := range src.Deps {
+				if d.Kind != "task" {
+					ds = append(ds, d)
+				}
+			}
+			dst.Deps = ds
+			for i := range c.Prog.Tasks {
+				for k := range c.Prog.Tasks[i].Deps {
+					if c.Prog.Tasks[i].Deps[k].Kind == "task" && c.Prog.Tasks[i].Deps[k].Value == old {
+						c.Prog.Tasks[i].Deps[k].Value = dst.Name
+					}
+				}
+			}
+		}
+	}
 	hasClean := false
 	if (cfg.Prop == "C09" && r.Chance(1, 3)) || (cfg.Prop != "nowriters" && r.Chance(1, 12)) {
 		// the last task (nothing depends on it) becomes the user's clean task
@@ -244,6 +267,9 @@ func (cachehist) Gen(r *Rng, cfg GenConfig) any {
 		names[i] = t.Name
 	}
 	nops := r.Range(4, 14)
+	if cfg.Tier == "thorough" && r.Chance(1, 4) {
+		nops = r.Range(15, 28) // the thorough tier also explores longer histories
+	}
 	// the generator tracks the disk its own operations produce, so that biased
 	// sub-histories ("macros") can name files that really are inputs of a task
 	disk := map[string]string{}
@@ -426,7 +452,12 @@ func (cachehist) Gen(r *Rng, cfg GenConfig) any {
 			}
 			c.Ops = append(c.Ops, CHOp{Op: "ctl", Task: t.Name, Cmd: r.Intn(t.NCmd), Exit: ex})
 		case k < 19:
-			c.Ops = append(c.Ops, CHOp{Op: "rmcache", What: Pick(r, []string{"dir", "file"})})
+			if r.Chance(1, 3) {
+				// debris next to the cache file: what an interrupted writer, an editor or a backup tool leaves
+				c.Ops = append(c.Ops, CHOp{Op: "debris", Path: Pick(r, chDebris), What: Pick(r, []string{"copy", "copy", "garbage", "empty"})})
+			} else {
+				c.Ops = append(c.Ops, CHOp{Op: "rmcache", What: Pick(r, []string{"dir", "file"})})
+			}
 		default:
 			// convergence tail: the same unforced run twice
 			op := CHOp{Op: "run", Tasks: []string{Pick(r, names)}, JSON: true}
@@ -437,6 +468,9 @@ func (cachehist) Gen(r *Rng, cfg GenConfig) any {
 }
 
 // ---------------------------------------------------------------- execution
+
+// chDebris: names an interrupted or foreign writer may leave beside cache.json.
+var chDebris = []string{"cache.json.tmp", "cache.json~", "cache.json.bak", ".cache.json.swp", "cache.json.new", "cache.tmp", "cache.json.lock"}
 
 type jsonResult struct {
 	Task    string `json:"task"`
@@ -522,6 +556,10 @@ func (s *projState) setCtl(task string, i, exit int) {
 	body := "true\n"
 	if exit != 0 {
 		body = fmt.Sprintf("exit %d\n", exit)
+	}
+	if exit == 1 && s.prog.Seq {
+		// returns 1 without leaving the shell: only errexit (`set -e`) turns it into a failing command
+		body = "false\n"
 	}
 	writeFile(filepath.Join(s.w.Ctl, key), body)
 }
@@ -787,6 +825,21 @@ func (s *projState) applyOp(res *Result, oi string, op CHOp) {
 			res.count("fault_fired:dependency_link_repointed")
 		}
 		res.event("%s relink %s -> %s", oi, op.Path, op.Content)
+	case "debris":
+		// a stray sibling of the cache file; the cache file itself is untouched, so nothing changes for the model
+		dir := filepath.Join(s.w.Proj, ".spok")
+		if st, err := os.Stat(dir); err == nil && st.IsDir() {
+			content := ""
+			switch op.What {
+			case "copy":
+				content = readFileOr(filepath.Join(dir, "cache.json"), "{}")
+			case "garbage":
+				content = "\x00\x00{\"half\": "
+			}
+			writeFile(filepath.Join(dir, op.Path), content)
+			res.count("fault_fired:stray_file_next_to_cache_" + op.What)
+		}
+		res.event("%s debris %s %s", oi, op.Path, op.What)
 	case "rmcache":
 		s.rmCache(op.What)
 		res.count("fault_fired:cache_removed_" + op.What)
